@@ -1,11 +1,11 @@
 (* Extract/Cmd_c11.v — observation commands of property C11 (numbers are lossless or rejected).
      i64  <decimal>            print an i64 with the writer, read it back with Value::from_str
      f64w <16 hex> <std text>  the f64 writer's logic applied to (bits, std `{}` text), read back
-     f32w <8 hex>  <std text>  the same for f32
+     f32w <8 hex>  <std text>  the f32 writer (std text = `{}` of the value widened to f64), read back
      lit  <text>               Value::from_str on a number literal
      serw <type> <decimal>     serde output of an integer of the given Rust type
      dew  <type> <literal>     serde input of `v = <literal>` into the given Rust type
-   Floats are printed as the exact decimal (`f:dec:<m>e<e>`); the differ rounds them. *)
+   Floats are printed as the exact decimal (`f:dech:<hex m>e<e>` = m * 10^e); the differ rounds them. *)
 From TV Require Import Base.Prelude Base.Utf8 Base.Winnow Gen.Consts Extract.Show.
 From TV Require Import Model.Datetime Model.Numbers Model.Tree Model.Parse Model.Document Model.Write.
 From TV Require Import Model.WriteFloat Model.SerNum.
@@ -38,12 +38,20 @@ Fixpoint arg_hex_acc (acc : N) (s : bytes) : option N :=
 Definition arg_hex (len : nat) (s : bytes) : option N :=
   if Nat.eqb (List.length s) len then arg_hex_acc 0 s else None.
 
-(* unbounded decimal rendering (Show.show_N is limited to 100 digits) *)
+(* the exact decimal of a float: mantissa in HEX (`f:dech:<hex m>e<e10>`): a 300-digit mantissa is
+   printed with shifts instead of 300 long divisions by ten; the differ converts *)
+Fixpoint hex_rev_N (fuel : nat) (n : N) : bytes :=
+  match fuel with
+  | O => []
+  | S f => if (n =? 0)%N then [] else hex_digit (N.land n 15) :: hex_rev_N f (N.shiftr n 4)
+  end.
+Definition hex_of_N (n : N) : bytes :=
+  match n with N0 => str "0" | _ => rev (hex_rev_N (S (N.size_nat n)) n) end.
 Definition show_fval_full (f : fval) : bytes :=
   match f with
   | FNan n => str "f:" ++ (if n then str "-nan" else str "nan")
   | FInf n => str "f:" ++ (if n then str "-inf" else str "inf")
-  | FDec n m e => str "f:dec:" ++ (if n then str "-" else []) ++ write_N m ++ str "e" ++ write_i64 e
+  | FDec n m e => str "f:dech:" ++ (if n then str "-" else []) ++ hex_of_N m ++ str "e" ++ write_i64 e
   end.
 
 Definition show_num (v : value) : bytes :=
@@ -80,6 +88,22 @@ Definition cmd_fw (hexlen : nat) (w : N -> bytes -> bytes) (bits std_text : byte
   | Some b =>
     let t := w b std_text in
     str "lit=" ++ show_hex t ++ str " val=" ++ show_parsed t
+  | None => str "bad-input"
+  end.
+
+(* fixed-width lowercase hex of a bit pattern *)
+Fixpoint hex_fixed (k : nat) (n : N) : bytes :=
+  match k with
+  | O => []
+  | S k' => hex_fixed k' (n / 16) ++ [hex_digit (n mod 16)]
+  end.
+
+(* f32: also show the widened bit pattern (f64::from) the writer works on *)
+Definition cmd_f32w (bits std_text : bytes) : bytes :=
+  match arg_hex 8 bits with
+  | Some b =>
+    let t := write_f32 b std_text in
+    str "w=" ++ (if fc_nan (classify32 b) then str "nan" else hex_fixed 16 (widen32 b)) ++ str " lit=" ++ show_hex t ++ str " val=" ++ show_parsed t
   | None => str "bad-input"
   end.
 
@@ -133,7 +157,7 @@ Definition run_cmd (name : bytes) (args : list bytes) : bytes :=
   else if bytes_eqb name (str "f64w") then
     match args with [b; t] => cmd_fw 16 write_f64 b t | _ => str "bad-args" end
   else if bytes_eqb name (str "f32w") then
-    match args with [b; t] => cmd_fw 8 write_f32 b t | _ => str "bad-args" end
+    match args with [b; t] => cmd_f32w b t | _ => str "bad-args" end
   else if bytes_eqb name (str "lit") then match args with [s] => cmd_lit s | _ => str "bad-args" end
   else if bytes_eqb name (str "serw") then match args with [t; a] => cmd_serw t a | _ => str "bad-args" end
   else if bytes_eqb name (str "dew") then match args with [t; a] => cmd_dew t a | _ => str "bad-args" end
